@@ -120,10 +120,10 @@ def twoStepFresnel(Uin, wvl, d1, d2, z):
     m = float(d2)/d1
 
     #intermediate plane
-    try:
-        Dz1  = z / (1-m) #propagation distance
-    except ZeroDivisionError:
+    if m == 1:
         Dz1 = z / (1+m)
+    else:
+        Dz1  = z / (1-m) #propagation distance
     d1a = wvl * abs(Dz1) / (N*d1) #coordinates
     x1a, y1a = numpy.meshgrid( numpy.arange( -N/2.,N/2.) * d1a,
                               numpy.arange( -N/2.,N/2.) * d1a )
